@@ -121,6 +121,17 @@ class VLoop(asyncio.SelectorEventLoop):
 
     # sockets: capture the protocol factory ------------------------------------------------
     async def create_server(self, protocol_factory, host=None, port=None, **kw):
+        # no socket is opened, but the address is resolved the way the real loop does it (numeric literals resolve offline):
+        # an IPv6 literal asked for with family=AF_INET fails here as it does for real
+        import socket
+        if isinstance(host, str) and host:
+            numeric = True
+            try:
+                socket.getaddrinfo(host, port, flags=socket.AI_NUMERICHOST)
+            except socket.gaierror:
+                numeric = False
+            if numeric:
+                socket.getaddrinfo(host, port, family=kw.get("family", 0) or 0, type=socket.SOCK_STREAM, flags=socket.AI_NUMERICHOST)
         srv = FakeServer(self, protocol_factory, host, port, kw)
         self.servers.append(srv)
         return srv
